@@ -21,9 +21,15 @@ func init() {
 }
 
 func rmCall(conn net.Conn, xid, prog, vers, proc uint32, args []byte) ([]byte, error) {
+	return rmCallFrag(conn, xid, prog, vers, proc, args, nil)
+}
+
+// rmCallFrag sends the call as one record split into fragments at the given offsets (RFC 5531 section 11: a
+// record is one or more fragments, the last one flagged) and reads the reply record.
+func rmCallFrag(conn net.Conn, xid, prog, vers, proc uint32, args []byte, splits []int) ([]byte, error) {
 	msg := cat(encCallHdr(xid, 2, prog, vers, proc, 1, encAuthSys(0, []byte("c"), 0, 0, nil), 0, nil), args)
 	conn.SetDeadline(time.Now().Add(2 * time.Second))
-	if _, err := conn.Write(append(u32(0x80000000|uint32(len(msg))), msg...)); err != nil {
+	if _, err := conn.Write(frame(msg, splits)); err != nil {
 		return nil, err
 	}
 	var hdr [4]byte
@@ -44,7 +50,7 @@ func rmCall(conn net.Conn, xid, prog, vers, proc uint32, args []byte) ([]byte, e
 	return buf, nil
 }
 
-// conformantClient: NULL, MNT "/", GETATTR; returns "rm" when all three are answered as record-marked replies.
+// conformantClient: NULL, MNT "/", GETATTR as single-fragment records, then MNT and GETATTR again as multi-fragment records; returns "rm" when all three are answered as record-marked replies.
 func conformantClient(port int) string {
 	conn, err := net.DialTimeout("tcp", fmt.Sprintf("127.0.0.1:%d", port), 2*time.Second)
 	if err != nil {
@@ -68,6 +74,21 @@ func conformantClient(port int) string {
 	}
 	if len(rep) != 24+4+84 || binary.BigEndian.Uint32(rep[24:]) != 0 || binary.BigEndian.Uint32(rep[28:]) != 2 {
 		return fmt.Sprintf("getattr-bad(len=%d)", len(rep))
+	}
+	// the same two calls the way another conformant client may send them: one record in several fragments
+	rep, err = rmCallFrag(conn, 14, progMount, 3, 1, xdrOpaque([]byte("/")), []int{24})
+	if err != nil {
+		return "raw(MNT in 2 fragments: " + err.Error() + ")"
+	}
+	if len(rep) < 24+4+4+8 || binary.BigEndian.Uint32(rep[24:]) != 0 || binary.BigEndian.Uint64(rep[32:]) != h {
+		return "mnt-failed(2 fragments)"
+	}
+	rep, err = rmCallFrag(conn, 15, progNFS, 3, 1, fh(h), []int{4, 40})
+	if err != nil {
+		return "raw(GETATTR in 3 fragments: " + err.Error() + ")"
+	}
+	if len(rep) != 24+4+84 || binary.BigEndian.Uint32(rep[24:]) != 0 || binary.BigEndian.Uint32(rep[28:]) != 2 {
+		return fmt.Sprintf("getattr-bad(3 fragments, len=%d)", len(rep))
 	}
 	return "rm"
 }
